@@ -31,7 +31,7 @@ def rkey(r):
 def cases(ctx):
     r = ctx.rnd
     t = ctx.tier == "thorough"
-    n = 330 if t else 26
+    n = 600 if t else 26
     for i in range(n):
         x = rkey(r)
         L = r.choice([0, 1, 31, 32, 33, 55, 56, 64, 100, 300]) if r.random() < 0.6 else r.randrange(0, 301)
